@@ -325,6 +325,10 @@ def model_ok(model, op, meshes):
     kind = op["op"]
     mesh = meshes[op["mesh"]]
     if kind == "add_geometry":
+        if op.get("sabotage") == "extra_node":
+            n0 = len(mesh["elements"][0][1]) + 1
+            ok_nodes = ref.NODES_2D if ref.mesh_dimension(mesh) == 2 else ref.NODES_3D
+            return None if n0 in ok_nodes else False      # the sabotage may produce another supported element
         if op.get("sabotage"):
             return False
         return model.geometry_call_ok(op["geom"], mesh)
